@@ -56,8 +56,6 @@ theorem within_frame_iff (p : V2) (r fy fx : ℚ) :
   unfold withinFrame Gen.within_axis
   simp only [Bool.and_eq_true, decide_eq_true_eq, ge_iff_le]
 
-theorem within_wiring : Gen.within_reduce_expr = "selector.all(axis=-1)" := rfl
-
 /-- **`frame_peaks` returns exactly the index/coordinate pairs whose coordinate is in range, each
 coordinate being `zero + i·a + j·b` for its own index** -/
 theorem frame_peaks_spec (fy fx : ℚ) (zero a b : V2) (r : ℚ) (indices : List V2) (ij c : V2) :
@@ -97,14 +95,6 @@ theorem layout_dispatch (ndim s0 s1 : ℤ) :
   simp only [Bool.and_eq_true, decide_eq_true_eq]
   trivial
 
-theorem layout_wiring :
-    Gen.reg_mgrid_expr = "result = np.concatenate(indices.T)" ∧ Gen.reg_list_expr = "result = indices" ∧
-    Gen.mc_mgrid_expr = "indices = np.concatenate(indices.T)" ∧
-    Gen.calc_coords_body = "coefficients = np.array((a, b)) ; return zero + np.dot(indices, coefficients)" ∧
-    Gen.get_indices_body = "coefficients = np.array((a, b)).T ; if abs(np.linalg.det(coefficients)) <= 1e-12 * np.linalg.norm(a) * np.linalg.norm(b): raise np.linalg.LinAlgError('Lattice vectors a and b are parallel or zero') ; target = points - zero ; result = np.linalg.solve(coefficients, target.T).T ; return result" ∧
-    Gen.frame_peaks_body = "indices = regularize_indices(indices) ; peaks = calc_coords(zero, a, b, indices) ; selector = within_frame(peaks, r, fy, fx) ; return (indices[selector], peaks[selector])" := by
-  refine ⟨rfl, rfl, rfl, rfl, rfl, rfl⟩
-
 /-- the mgrid layout enumerates exactly the grid nodes `(I r c, J r c)` -/
 theorem mgrid_layout_mem (n m : ℕ) (I J : ℕ → ℕ → ℚ) (v : V2) :
     v ∈ mgridLayout n m I J ↔ ∃ r c, r < n ∧ c < m ∧ v = (I r c, J r c) := by
@@ -132,8 +122,6 @@ theorem drop_zero_iff (zero a b : V2) (indices : List V2) (c : V2) :
     by_contra hcon
     push Not at hcon
     exact hne (Prod.ext hcon.1 hcon.2)
-
-theorem drop_zero_wiring : Gen.mc_drop_zero_expr = "np.any(indices != 0, axis=1)" := rfl
 
 /-! ### polar / cartesian conversion (`make_polar`, `make_cartesian`)
 
